@@ -376,7 +376,7 @@ def run(ctx):
         dec, enc = choose_pairs(rec)
         shards = []
         quick = ctx.quick
-        cap = 400 if quick else 4000
+        cap = 400 if quick else 1500
         pairs = [(dec[0], dec[1]), (dec[0], enc[0]), (enc[0], enc[1])]
         if not quick:
             pairs += [(dec[1], dec[2]), (dec[-1], enc[-1]), (dec[2], enc[1]), (enc[-1], enc[-2])]
